@@ -63,7 +63,7 @@ def gyration_tensor(pos_group: npt.NDArray) -> List[Any]:
         results[n, m] = Smn / num_particles
 
     # calculate shape descriptors
-    principal_component = np.sort(np.linalg.eig(results)[0])
+    principal_component = np.sort(np.linalg.eigvalsh(results))
 
     radius_of_gyration = np.sqrt(principal_component.sum())
     acylindricity = principal_component[1] - principal_component[0]
